@@ -183,3 +183,27 @@ def compare_batch(chk, progs, exp, obs, label: str, extra_check=None) -> Dict[st
         else:
             chk.violation(case, m)
     return stats
+
+
+# ------------------------------------------------------------------ pinned known-finding cases
+def run_pinned(chk, pid: str) -> None:
+    """Concrete failing inputs recorded under /verif/findings/<pid>/*.json (known findings that no
+    named deviation of the specification models).  Each is re-run: if it still fails in the recorded
+    way it is reported as KNOWN-FINDING pinned:<name>; if it fails differently it is a VIOLATION; if
+    it no longer fails nothing is printed."""
+    from .core import ROOT
+    d = ROOT / "findings" / pid
+    if not d.exists():
+        return
+    for f in sorted(d.glob("*.json")):
+        rec = json.loads(f.read_text())
+        p = rec["program"]
+        e = oracle([p])[p["id"]]
+        o = real_variant([p], dyn=rec.get("variant") == "dynamic", workers=1, per_item_s=8.0)[0]
+        chk.count(["pinned", f.name], nontrivial=True)
+        m = mismatch(e, o)
+        if m is None:
+            chk.add("pinned_cases_now_passing", 1)
+            continue
+        case = {"label": "pinned", "file": f.name, "program": brief(p), "json": p}
+        chk.violation(case, m, key=("pinned:" + f.stem) if m["what"] == rec["what"] else None)
